@@ -1,3 +1,4 @@
+import Secp.Proofs.WrapperTies
 import Secp.Proofs.ScalarLawful
 import Secp.Hand.Scalar
 /-!
